@@ -3,6 +3,7 @@
 Emits coq/Gen/T_C20.v:
   reserved_names      NameSanitizer.RESERVED_NAMES (sorted; membership is all the code uses)
   s_unnamed_class     the fallback literal of sanitize_class_name
+  s_unnamed           the empty-name fallback literal of sanitize_method_name / _module_name / _tag_attr_name
   s_client            the suffix literal of sanitize_tag_class_name
   s_member_*, s_value_*  the literals of the enum member naming functions
 """
@@ -52,6 +53,27 @@ def render() -> str:
         raise TranslatorError("sanitize_tag_class_name: return is not `<expr> + <literal>`")
     client = ret[0].value.right.value
 
+    # the empty-name fallback of the snake-case sanitisers (`if not name: name = "<lit>"` / `<expr> or "<lit>"`)
+    def empty_fallback(fn_name: str) -> str:
+        fn = _find_func(ns, fn_name)
+        lits = []
+        for n in ast.walk(fn):
+            if (isinstance(n, ast.If) and isinstance(n.test, ast.UnaryOp) and isinstance(n.test.op, ast.Not)
+                    and len(n.body) == 1 and isinstance(n.body[0], ast.Assign)
+                    and isinstance(n.body[0].value, ast.Constant) and isinstance(n.body[0].value.value, str)):
+                lits.append(n.body[0].value.value)
+            if (isinstance(n, ast.BoolOp) and isinstance(n.op, ast.Or) and len(n.values) == 2
+                    and isinstance(n.values[1], ast.Constant) and isinstance(n.values[1].value, str)):
+                lits.append(n.values[1].value)
+        if len(lits) != 1:
+            raise TranslatorError(f"{fn_name}: expected exactly one empty-name fallback literal, found {lits}")
+        return lits[0]
+
+    fallbacks = {f: empty_fallback(f) for f in ("sanitize_method_name", "sanitize_module_name", "sanitize_tag_attr_name")}
+    if len(set(fallbacks.values())) != 1:
+        raise TranslatorError(f"empty-name fallbacks differ between the snake-case sanitisers: {fallbacks}")
+    snake_fallback = fallbacks["sanitize_method_name"]
+
     emod = _parse("visit/model/enum_generator.py")
     eg = _find_class(emod, "EnumGenerator")
     sfn = _find_func(eg, "_generate_member_name_for_string_enum")
@@ -85,6 +107,7 @@ def render() -> str:
         "Definition reserved_names : list (list N) := [" + "; ".join(cstr(k) for k in names) + "].",
         f"Definition s_unnamed_class : list N := {cstr(unnamed[0])}.",
         f"Definition s_client : list N := {cstr(client)}.",
+        f"Definition s_unnamed : list N := {cstr(snake_fallback)}.",
         f"Definition s_member_ : list N := {cstr('MEMBER_')}.",
         f"Definition s_member_empty : list N := {cstr('MEMBER_EMPTY_STRING')}.",
         f"Definition s_value_ : list N := {cstr('VALUE_')}.",
